@@ -1171,3 +1171,119 @@ theorem tomlCollectEntries_err : (seen : List De) → (l : List (De × De)) → 
 end
 end
 end Xt.Transcode
+
+namespace Xt.Transcode
+open Xt.Serde Xt.ValuePath
+
+/-! ## Failure points by path -/
+
+/-- One step of a path from a collection down to one of its children: an
+element of a sequence, a key of a map, a value of a map — with everything
+around it. -/
+inductive PathStep where
+  | elem (before after : List De) (close : Option Nat)
+  | key (before : List (De × De)) (value : De) (after : List (De × De)) (close : Option Nat)
+  | val (before : List (De × De)) (key : De) (after : List (De × De)) (close : Option Nat)
+
+def PathStep.plug : PathStep → De → De
+  | .elem b a c, h => .seq (b ++ h :: a) c
+  | .key b v a c, h => .map (b ++ (h, v) :: a) c
+  | .val b k a c, h => .map (b ++ (k, h) :: a) c
+
+/-- The tree with `hole` at the end of `path` (outermost step first). -/
+def plug : List PathStep → De → De
+  | [], h => h
+  | st :: rest, h => st.plug (plug rest h)
+
+/-- Everything that is executed before the hole is reached is error-free. -/
+def PathStep.clean : PathStep → Bool
+  | .elem b _ _ => De.errorFreeList b
+  | .key b _ _ _ => De.errorFreeEntries b
+  | .val b k _ _ => De.errorFreeEntries b && k.errorFree
+
+section
+variable (dec : DErr → DErr)
+
+theorem trace_err_none_of_errorFree (d : De) (h : d.errorFree = true) : (trace dec d).2 = none :=
+  isNone_eq_true (by rw [trace_err_isNone, h])
+
+theorem traceList_prefix (b l : List De) (hb : De.errorFreeList b = true) :
+    (traceList dec (b ++ l)).2 = (traceList dec l).2 := by
+  induction b with
+  | nil => rfl
+  | cons e b ih =>
+    simp only [De.errorFreeList, Bool.and_eq_true] at hb
+    rw [List.cons_append, traceList, accessFail_of_errorFree e hb.1]
+    simp only [thenT_err, opT_err, trace_err_none_of_errorFree dec e hb.1, Option.none_or,
+      Option.or_none, ih hb.2]
+
+theorem traceEntries_prefix (b l : List (De × De)) (hb : De.errorFreeEntries b = true) :
+    (traceEntries dec (b ++ l)).2 = (traceEntries dec l).2 := by
+  induction b with
+  | nil => rfl
+  | cons kv b ih =>
+    obtain ⟨k, v⟩ := kv
+    simp only [De.errorFreeEntries, Bool.and_eq_true] at hb
+    rw [List.cons_append, traceEntries, accessFail_of_errorFree k hb.1.1,
+      accessFail_of_errorFree v hb.1.2]
+    simp only [thenT_err, opT_err, trace_err_none_of_errorFree dec k hb.1.1,
+      trace_err_none_of_errorFree dec v hb.1.2, Option.none_or, Option.or_none, ih hb.2]
+
+/-- A failing child in element / key / value position fails the loop with the
+child's error, whether it is an immediate failure or a failure of the access. -/
+theorem traceList_head_err (h : De) (a : List De) (e : DErr) (he : (trace dec h).2 = some e) :
+    (traceList dec (h :: a)).2 = some e := by
+  rw [traceList]
+  cases hacc : h.accessFail with
+  | some tok =>
+    cases h <;> simp_all [De.accessFail, trace]
+  | none => simp [thenT_err, he]
+
+theorem traceEntries_key_err (h v : De) (a : List (De × De)) (e : DErr)
+    (he : (trace dec h).2 = some e) : (traceEntries dec ((h, v) :: a)).2 = some e := by
+  rw [traceEntries]
+  cases hacc : h.accessFail with
+  | some tok =>
+    cases h <;> simp_all [De.accessFail, trace]
+  | none => simp [thenT_err, he]
+
+theorem traceEntries_val_err (k h : De) (a : List (De × De)) (e : DErr)
+    (hk : k.errorFree = true) (he : (trace dec h).2 = some e) :
+    (traceEntries dec ((k, h) :: a)).2 = some e := by
+  rw [traceEntries, accessFail_of_errorFree k hk]
+  simp only [thenT_err, opT_err, trace_err_none_of_errorFree dec k hk, Option.none_or, Option.or_none]
+  cases hacc : h.accessFail with
+  | some tok =>
+    cases h <;> simp_all [De.accessFail, trace]
+  | none => simp [thenT_err, he]
+
+theorem trace_step (st : PathStep) (hole : De) (e : DErr) (hclean : st.clean = true)
+    (he : (trace dec hole).2 = some e) : (trace dec (st.plug hole)).2 = some (dec e) := by
+  cases st with
+  | elem b a c =>
+    simp only [PathStep.clean] at hclean
+    simp [PathStep.plug, trace, thenT_err, decT_err, traceList_prefix dec b _ hclean,
+      traceList_head_err dec hole a e he]
+  | key b v a c =>
+    simp only [PathStep.clean] at hclean
+    simp [PathStep.plug, trace, thenT_err, decT_err, traceEntries_prefix dec b _ hclean,
+      traceEntries_key_err dec hole v a e he]
+  | val b k a c =>
+    simp only [PathStep.clean, Bool.and_eq_true] at hclean
+    simp [PathStep.plug, trace, thenT_err, decT_err, traceEntries_prefix dec b _ hclean.1,
+      traceEntries_val_err dec k hole a e hclean.2 he]
+
+/-- A failure point at the end of any path, with nothing failing before it in
+execution order, is the tree's first deserializer failure, decorated once per
+level. -/
+theorem trace_plug (path : List PathStep) (hole : De) (e : DErr)
+    (hclean : ∀ st ∈ path, st.clean = true) (he : (trace dec hole).2 = some e) :
+    (trace dec (plug path hole)).2 = some (decN dec path.length e) := by
+  induction path with
+  | nil => exact he
+  | cons st rest ih =>
+    have ih' := ih (fun s hs => hclean s (List.mem_cons_of_mem _ hs))
+    exact trace_step dec st (plug rest hole) _ (hclean st List.mem_cons_self) ih'
+
+end
+end Xt.Transcode
